@@ -10,7 +10,8 @@ Inductive case :=
 
 Definition fuel : nat := Z.to_nat 30000.
 
-Definition gopher_devs := mkDevs true true false false 0.
+(* dv_localfunc is off since fix 1f23970 (only `local function f` sees itself) *)
+Definition gopher_devs := mkDevs true false false false 0.
 Definition with_fault (d : devs) (k : Z) (str : bool) := mkDevs (dv_handler_err d) (dv_localfunc d) (dv_wrap_noprefix d) str k.
 
 Definition is_skip (o : outcome) := match o with Outcome _ _ => false | _ => true end.
